@@ -335,6 +335,13 @@ class GenWalker:
             if attr == "generate":
                 return _Bound(base, attr)
             if base.cls and self.repo.resolve_method(base.cls, attr):
+                r = self.repo.resolve_method(base.cls, attr)
+                if any(ast.unparse(d).split(".")[-1] in ("property", "cached_property") for d in r[2].decorator_list) and not any(isinstance(x, (ast.Yield, ast.YieldFrom)) for x in ast.walk(r[2])):
+                    # a property of the node: its getter over the node's own attributes (followed when the model can)
+                    try:
+                        return self.inline(r[0], r[1], r[2], [base], {})
+                    except AnalysisError:
+                        return Opaque(src, _ATTR_TYPES.get(attr))
                 return _Bound(base, attr)
             return Opaque(src, _ATTR_TYPES.get(attr))
         if isinstance(base, _Rules):
@@ -502,12 +509,18 @@ class GenWalker:
                 r = self.repo.resolve_method(base.cls, attr)
                 if r is not None:
                     has_gen = any(isinstance(x, Gen) for x in args) or any(isinstance(v, Gen) for v in kwargs.values())
-                    if has_gen:
-                        return self.inline(r[0], r[1], r[2], [base, *args], kwargs)
-                    try:
-                        return self.inline(r[0], r[1], r[2], [base, *args], kwargs)
-                    except AnalysisError:
-                        pass
+                    decos = {ast.unparse(d).split(".")[-1] for d in r[2].decorator_list}
+                    recv = [] if "staticmethod" in decos else [base]  # (a classmethod's cls is not modelled: it falls through)
+                    if "classmethod" in decos:
+                        if has_gen:
+                            raise AnalysisError(f"{self.construct}: the class method {attr}() is handed the Builder but is not followed")
+                    elif has_gen:
+                        return self.inline(r[0], r[1], r[2], [*recv, *args], kwargs)
+                    else:
+                        try:
+                            return self.inline(r[0], r[1], r[2], [*recv, *args], kwargs)
+                        except AnalysisError:
+                            pass
             if isinstance(base, (Obj, _Super)):
                 return Opaque(ast.unparse(node), "str" if attr in ("build_optimized_pattern", "tag_str") else None)
         if isinstance(f, str) and f in self.repo.mod(self._cur_rel).functions() and f not in ("version",):
